@@ -39,6 +39,12 @@ Streams:
               scripts generated the way the engine does (generate_scripts() or a
               dry execute_ready_steps()), also interleaved A, B, A: every script
               of a graph is judged against that graph's own batch block
+  ops         the engine's sequence of operations on ONE adapter instance and step:
+              write_script -> submit (process layer / flux bindings faked) ->
+              check_jobs -> write_script AGAIN (a restart / resubmission rewrites
+              both scripts): the second scripts must equal the first and the
+              model's; submit / check_jobs must leave step.run and the adapter's
+              batch dictionary as they were
   exotic      seeded: malformed tokens, zero/empty/odd values, unsafe
               characters, missing batch keys, unicode text (never inside a
               token's brackets)
@@ -269,8 +275,9 @@ class Impl:
                 class _Handle:
                     def attr_get(self, key):
                         return BROKER
+                self.flux_handle = _Handle()
                 for iface in FluxFactory.factories.values():
-                    iface.flux_handle = _Handle()
+                    iface.flux_handle = self.flux_handle
             except Exception as e:
                 self.err["flux"] = e
                 self.cls.pop("flux", None)
@@ -412,6 +419,77 @@ class Impl:
                 remaining = remaining[len(got):]
                 part += 1
         return out
+
+    def _written(self, ret):
+        sched, path, rpath = ret
+        return {"sched": bool(sched), "name": os.path.basename(path), "text": self._read(path),
+                "restart": None if not rpath else [os.path.basename(rpath), self._read(rpath)]}
+
+    @staticmethod
+    def _dict_diff(a, b):
+        keys = sorted(set(a) | set(b), key=str)
+        return {str(k): [repr(a.get(k, "<absent>")), repr(b.get(k, "<absent>"))] for k in keys
+                if k not in a or k not in b or a[k] != b[k] or type(a[k]) is not type(b[k])}
+
+    def run_ops(self, c):
+        """write_script -> submit -> check_jobs -> write_script again, on one adapter instance and
+        one step (what the engine does when it restarts or resubmits a record).  The observable is
+        the SECOND pair of scripts; `ops` says what else happened."""
+        import copy
+        from harness.props import c07_adapters as F
+        self._clean()
+        ops = {"first_equal": None, "submit": None, "check": None, "run_changed": {}, "batch_changed": {}}
+        try:
+            be = c["backend"]
+            if be not in self.cls:
+                raise self.err.get(be) or ImportError(be)
+            kw = dict(c["batch"])
+            if "args" in kw:
+                kw["args"] = dict(kw["args"])
+            adapter = self.cls[be](**kw)
+            step = self._step(c)
+            first = self._written(adapter.write_script(self.ws, step))
+        except Exception as e:
+            return {"exc": self.classify(e), "cls": type(e).__name__, "msg": str(e)[:160], "ops": ops}
+        run0 = copy.deepcopy(dict(step.run))
+        batch0 = copy.deepcopy(dict(getattr(adapter, "_batch", {})))
+        path = os.path.join(self.ws, first["name"])
+
+        def drive():
+            try:
+                rec = adapter.submit(step, path, self.ws)
+                ops["submit"] = "ok"
+            except Exception as e:
+                ops["submit"] = "%s: %s" % (type(e).__name__, str(e)[:120])
+                return
+            try:
+                adapter.check_jobs([rec.job_identifier])
+                ops["check"] = "ok"
+            except Exception as e:
+                ops["check"] = "%s: %s" % (type(e).__name__, str(e)[:120])
+        try:
+            if be == "flux":
+                with F.FakeFluxInstalled() as ff:
+                    for cls_, _old in ff.classes:
+                        cls_.flux_handle = self.flux_handle
+                    F.WORLD.reset(pool=[101, 102, 103])
+                    drive()
+            else:
+                with F.ProcLayer(F.ProcWorld(pool=["4101", "4102", "4103"])):
+                    drive()
+        except Exception as e:
+            ops["submit"] = ops["submit"] or "%s: %s" % (type(e).__name__, str(e)[:120])
+        ops["run_changed"] = self._dict_diff(run0, dict(step.run))
+        ops["batch_changed"] = self._dict_diff(batch0, dict(getattr(adapter, "_batch", {})))
+        try:
+            second = self._written(adapter.write_script(self.ws, step))
+        except Exception as e:
+            second = {"exc": self.classify(e), "cls": type(e).__name__, "msg": str(e)[:160]}
+        ops["first_equal"] = (second == first)
+        if second != first:
+            ops["first"] = first
+        second["ops"] = ops
+        return second
 
     def run_rewrite(self, group):
         """the steps of `group` (same step name) are written one after the other
@@ -748,6 +826,8 @@ def other_batch(rng, b):
         o["qos"] = "expedite" if o.get("qos") != "expedite" else "normal"
     if rng.random() < 0.25:
         o["nodes"] = 3 if o.get("nodes") != 3 else 5
+    if rng.random() < 0.15:
+        o[rng.choice(["bank", "queue", "host", "reservation"])] = ""     # a setting left blank
     return o
 
 
@@ -779,6 +859,42 @@ def gen_graphs(rng, gid):
     return group
 
 
+def gen_ops(rng, i):
+    """a scheduled step (often declaring only one of nodes / procs, with a restart command) for the
+    write -> submit -> check -> write again sequence"""
+    c = gen_case(rng, "structured")
+    if rng.random() < 0.5:
+        drop = rng.choice(["nodes", "procs"])
+        if any(k == ("procs" if drop == "nodes" else "nodes") and v for k, v in c["res"]):
+            c["res"] = [kv for kv in c["res"] if kv[0] != drop]
+            c["cmd"], c["cmd_pieces"] = VAR + " ./app input", [["B"], ["T", " ./app input"]]
+            c["restart"], c["restart_pieces"] = VAR + " ./app --restart", [["B"], ["T", " ./app --restart"]]
+            if c["backend"] != "local" and rng.random() < 0.5:
+                c["batch"]["nodes"] = rng.choice([2, 4])
+    c["stream"] = "ops"
+    return c
+
+
+def small_ops():
+    """every back-end x (nodes only | procs only | both | neither) x batch-level nodes absent | 4"""
+    out = []
+    for be in ("slurm", "lsf", "flux", "local"):
+        for res in ([["nodes", 2]], [["procs", 8]], [["nodes", 2], ["procs", 8]], [["nodes", "2"]], [["procs", "8"]], []):
+            for bn in (None, 4):
+                if be == "local" and (bn or res):
+                    continue
+                b = {"type": be} if be == "local" else {"type": be, "host": "h", "bank": "b", "queue": "q"}
+                if bn:
+                    b["nodes"] = bn
+                ps = [["B"], ["T", " ./app input"]] if be != "local" else [["T", "./app input"]]
+                rp = [["B"], ["T", " ./app --restart"]] if be != "local" else [["T", "./app --restart"]]
+                out.append({"backend": be, "batch": b, "name": "s1", "desc": "d",
+                            "cmd": "".join(piece_text(p) for p in ps), "restart": "".join(piece_text(p) for p in rp),
+                            "res": [list(kv) for kv in res] + ([["walltime", "00:10:00"]] if res else []),
+                            "cmd_pieces": ps, "restart_pieces": rp, "stream": "ops"})
+    return out
+
+
 def small_graphs():
     """every back-end, both ways of generating: A then B, and A, B, A"""
     out, gid = [], 0
@@ -786,7 +902,8 @@ def small_graphs():
         a = {"type": be, "host": "h1", "bank": "bankA", "queue": "qA", "reservation": "resA"}
         b = {"type": be, "host": "h2", "bank": "bankB", "queue": "qB"}
         for mode in ("generate_scripts", "execute_ready_steps"):
-            for blocks in ((a, b), (a, b, a), (b, a)):
+            blank = {"type": be, "host": "h3", "bank": "", "queue": "qC"}
+            for blocks in ((a, b), (a, b, a), (b, a), (blank, a)):
                 group = []
                 for gi, blk in enumerate(blocks):
                     group.append([{"backend": be, "batch": blk, "name": "s1", "desc": "d",
@@ -997,7 +1114,7 @@ def shape(c, o):
 KNOWN_SIG = {}     # signature name -> (id, what) from KNOWN_FINDINGS.txt
 
 
-def run_all(impl, cases, seqs, rewrites=(), graphs=()):
+def run_all(impl, cases, seqs, rewrites=(), graphs=(), ops=()):
     """observables: a fresh adapter and directory per single case; one shared
     adapter per sequence; one shared directory per rewrite group; real
     ExecutionGraphs one after the other per graphs group"""
@@ -1008,12 +1125,14 @@ def run_all(impl, cases, seqs, rewrites=(), graphs=()):
         obs.extend(impl.run_rewrite(grp))
     for grp in graphs:
         obs.extend(impl.run_graphs(grp))
+    for c in ops:
+        obs.append(impl.run_ops(c))
     return (cases + [c for seq in seqs for c in seq] + [c for grp in rewrites for c in grp]
-            + [c for grp in graphs for g in grp for c in g]), obs
+            + [c for grp in graphs for g in grp for c in g] + list(ops)), obs
 
 
-def evaluate(ck, cases, impl, tag, count=True, seqs=(), rewrites=(), graphs=()):
-    cases, obs = run_all(impl, cases, list(seqs), list(rewrites), list(graphs))
+def evaluate(ck, cases, impl, tag, count=True, seqs=(), rewrites=(), graphs=(), ops=()):
+    cases, obs = run_all(impl, cases, list(seqs), list(rewrites), list(graphs), list(ops))
     bad, errs, detail = classify_cases(tag, cases, obs)
     hist = ck.cov.setdefault("input_distribution", {})
     if count:
@@ -1045,6 +1164,27 @@ def evaluate(ck, cases, impl, tag, count=True, seqs=(), rewrites=(), graphs=()):
                 dom[k] = dom.get(k, 0) + 1
             dom["total"] = dom.get("total", 0) + len(ind)
     findings = []
+    for c, o in zip(cases, obs):
+        op = o.get("ops")
+        if not op:
+            continue
+        if count:
+            oc = ck.cov.setdefault("ops_outcomes", {})
+            for k_ in ("submit:" + ("ok" if op["submit"] == "ok" else "raised" if op["submit"] else "not reached"),
+                       "check_jobs:" + ("ok" if op["check"] == "ok" else "raised" if op["check"] else "not reached")):
+                oc[c["backend"] + ":" + k_] = oc.get(c["backend"] + ":" + k_, 0) + 1
+        cj = {"case": strip_case(c), "impl": {k: v for k, v in o.items() if k != "ops"}, "operations": op,
+              "note": "one adapter instance, one step: write_script, submit, check_jobs, write_script again"}
+        if op["first_equal"] is False:
+            findings.append(("violation", "the scripts written again after submit / check_jobs differ from the ones "
+                             "written first (backend %s): a restarted step no longer requests what it declares"
+                             % c["backend"], cj))
+        elif op["run_changed"]:
+            findings.append(("violation", "submit / check_jobs changed the step's run dictionary (backend %s): %s"
+                             % (c["backend"], json.dumps(op["run_changed"])[:200]), cj))
+        elif op["batch_changed"]:
+            findings.append(("violation", "submit / check_jobs changed the adapter's batch dictionary (backend %s): %s"
+                             % (c["backend"], json.dumps(op["batch_changed"])[:200]), cj))
     for i in bad:
         d = detail.get(i)
         if d is None:
@@ -1063,12 +1203,14 @@ def evaluate(ck, cases, impl, tag, count=True, seqs=(), rewrites=(), graphs=()):
                 if x.get("graphs") and x["graphs"][0] == gid and x["graphs"][1] < c["graphs"][1]]
             cj["note"] = ("graph %d of its group, scripts generated by ExecutionGraph.%s(); judged against this "
                           "graph's own batch block" % (c["graphs"][1] + 1, c["graphs"][3]))
-            if not d["corr"] and c["graphs"][1] > 0:
+            if not d["corr"]:
                 fresh = impl.run(c)
                 if fresh != o and "exc" not in fresh:
-                    findings.append(("violation", "the scripts of an ExecutionGraph depend on the graphs generated "
-                                     "earlier in the process: they do not request this graph's batch settings "
-                                     "(backend %s)" % c["backend"], dict(cj, fresh_process=fresh)))
+                    what = ("the scripts of an ExecutionGraph depend on the graphs generated earlier in the process: "
+                            "they do not request this graph's batch settings" if c["graphs"][1] > 0 else
+                            "what an ExecutionGraph generates for a batch block and step differs from what the adapter "
+                            "constructed with that block writes")
+                    findings.append(("violation", "%s (backend %s)" % (what, c["backend"]), dict(cj, fresh_process=fresh)))
                     continue
         if not d["mon"]:
             known = [KNOWN_SIG[s_] for s_ in d["sigs"] if s_ in KNOWN_SIG]
@@ -1164,7 +1306,7 @@ def report(ck, findings, impl=None):
     for f in findings:
         if f[0] == "violation":
             cj = f[2]
-            if impl is not None and not shrunk and "sequence" not in cj \
+            if impl is not None and not shrunk and "sequence" not in cj and "operations" not in cj \
                     and not cj.get("written_before_into_same_directory") \
                     and "graphs_before_in_this_process" not in cj:
                 shrunk = True
@@ -1209,9 +1351,12 @@ def run(ck):
         grs = small_graphs() + [gen_graphs(rng, i) for i in range(n_gr)]
         ck.cov["graphs"] = {"groups": len(grs), "graphs": sum(len(g) for g in grs),
                             "scripts": sum(len(q) for g in grs for q in g)}
-        obs, bad, findings = evaluate(ck, cases, impl, "C15", seqs=seqs, rewrites=rws, graphs=grs)
+        n_ops = 40 if ck.tier == "quick" else 800
+        opc = small_ops() + [gen_ops(rng, i) for i in range(n_ops)]
+        ck.cov["ops"] = {"cases": len(opc)}
+        obs, bad, findings = evaluate(ck, cases, impl, "C15", seqs=seqs, rewrites=rws, graphs=grs, ops=opc)
         cases = cases + [c for q in seqs for c in q] + [c for g in rws for c in g] \
-            + [c for g in grs for q in g for c in q]
+            + [c for g in grs for q in g for c in q] + opc
         report(ck, findings, impl)
         ck.cov["traces_validated_against_impl"] = len(cases)
         ck.cov["rule"] = (
@@ -1233,7 +1378,11 @@ def run(ck):
             "Graphs stream: in ONE process two or three real ExecutionGraphs of the same batch type with different "
             "batch blocks (bank / queue / host / reservation / qos / nodes) generate their scripts through "
             "generate_scripts() or a dry execute_ready_steps(), also A, B, A; every script file is read back and "
-            "judged (model equality and C15_ok) against its own graph's batch block and step." % ncorpus)
+            "judged (model equality and C15_ok) against its own graph's batch block and step. "
+            "Ops stream: on one adapter instance and step, write_script, submit (process layer / flux bindings "
+            "faked), check_jobs, write_script again: the second cmd and restart scripts are judged like any other "
+            "(model equality, C15_ok) and must be byte-identical to the first; step.run and the adapter's batch "
+            "dictionary are compared (deep copies) before and after submit / check_jobs." % ncorpus)
 
         def search():
             r2 = random.Random(ck.seed + 7919)
@@ -1241,7 +1390,8 @@ def run(ck):
             sq = [gen_sequence(r2, "s%d" % i) for i in range(400)]
             rw = [gen_rewrite(r2, "r%d" % i) for i in range(300)]
             gr = [gen_graphs(r2, "g%d" % i) for i in range(150)]
-            _, _, f2 = evaluate(ck, extra, impl, "C15-search", count=False, seqs=sq, rewrites=rw, graphs=gr)
+            op2 = [gen_ops(r2, i) for i in range(200)]
+            _, _, f2 = evaluate(ck, extra, impl, "C15-search", count=False, seqs=sq, rewrites=rw, graphs=gr, ops=op2)
             for f in f2:
                 if f[0] == "violation":
                     try:
